@@ -271,6 +271,40 @@ func checkC14(tier, replay string) int {
 		}
 	}
 	parallelFor(len(conds), func(i int) { doPolicy("S2", conds[i]) })
+	// sizes: lists of 1..13 conditions (several on one argument), 1..9 lists per entry, 1..9 entries per group, 1..9 names, 1..6 groups
+	var sized []*seccomp.Policy
+	mkList := func(k int) seccomp.ArgumentConditions {
+		var l seccomp.ArgumentConditions
+		for i := 0; i < k; i++ {
+			op := seccomp.GreaterOrEqual
+			if i%2 == 1 {
+				op = seccomp.LessOrEqual
+			}
+			l = append(l, seccomp.Condition{Argument: uint32((i / 2) % 6), Operation: op, Value: uint64(10*i + i%2*1000)})
+		}
+		return l
+	}
+	for k := 1; k <= 13; k++ {
+		sized = append(sized, &seccomp.Policy{DefaultAction: seccomp.ActionAllow, Syscalls: []seccomp.SyscallGroup{{Action: seccomp.ActionErrno, NamesWithCondtions: []seccomp.NameWithConditions{{Name: names[1], Conditions: mkList(k)}}}}})
+	}
+	for k := 1; k <= 9; k++ {
+		g1, g2, g3 := seccomp.SyscallGroup{Action: seccomp.ActionErrno}, seccomp.SyscallGroup{Action: seccomp.ActionTrap}, seccomp.SyscallGroup{Action: seccomp.ActionKillProcess}
+		tab := x.SortedNames()
+		for i := 0; i < k; i++ {
+			g1.NamesWithCondtions = append(g1.NamesWithCondtions, seccomp.NameWithConditions{Name: names[1], Conditions: mkList(1 + i%3)})
+			g2.NamesWithCondtions = append(g2.NamesWithCondtions, seccomp.NameWithConditions{Name: tab[10+i], Conditions: mkList(2)})
+			g3.Names = append(g3.Names, tab[40+i])
+		}
+		sized = append(sized, &seccomp.Policy{DefaultAction: seccomp.ActionAllow, Syscalls: []seccomp.SyscallGroup{g1}}, &seccomp.Policy{DefaultAction: seccomp.ActionLog, Syscalls: []seccomp.SyscallGroup{g2, g3}})
+		if k <= 6 {
+			p := &seccomp.Policy{DefaultAction: seccomp.ActionAllow}
+			for i := 0; i < k; i++ {
+				p.Syscalls = append(p.Syscalls, seccomp.SyscallGroup{Action: allNamed[i%7], Names: []string{tab[60+i]}})
+			}
+			sized = append(sized, p)
+		}
+	}
+	parallelFor(len(sized), func(i int) { doPolicy("sizes", sized[i]) })
 	ctx.Cov["evaluations"] = parses + roundTrips
 	ctx.Cov["distinct_nontrivial"] = policies
 	ctx.Cov["name_strings_parsed"] = parses
@@ -278,7 +312,7 @@ func checkC14(tier, replay string) int {
 	ctx.Cov["strings_equal_to_a_name_only_under_unicode_folding"] = folded
 	ctx.Cov["policies_round_tripped"] = policies
 	ctx.Cov["round_trips"] = roundTrips
-	ctx.Cov["rule"] = "A: all 2^letters ASCII case variants of the 7 action and 8 operation names must parse to the exact constant; all single-edit mutants (delete / substitute / insert over a-z, '_', blank, tab, '-', NUL, dotless i, Kelvin sign, long s) of every name in lower and upper case, pair concatenations and a list of look-alikes must be rejected (three-valued where a string equals a name only under Unicode folding); printed forms parse back. B: every policy of S1 (<=2 groups), S3 (<=2 entries, <=2 conditions) and S2 (8 ops x 6 argument indices x operand alphabet x all named actions) is rendered by an independent emitter (documented keys, decimal/hex operands, varied letter case), by yaml.Marshal and by json.Marshal of the library structs, read back through ucfg/yaml + Unpack exactly as cmd/sandbox does, and must compile to the identical program (or both be rejected); non-trivial = distinct policies round-tripped"
+	ctx.Cov["rule"] = "A: all 2^letters ASCII case variants of the 7 action and 8 operation names must parse to the exact constant; all single-edit mutants (delete / substitute / insert over a-z, '_', blank, tab, '-', NUL, dotless i, Kelvin sign, long s) of every name in lower and upper case, pair concatenations and a list of look-alikes must be rejected (three-valued where a string equals a name only under Unicode folding); printed forms parse back. B: every policy of S1 (<=2 groups), S3 (<=2 entries, <=2 conditions) and S2 (8 ops x 6 argument indices x operand alphabet x all named actions), plus a size family (lists of 1..13 conditions, 1..9 lists per entry, 1..9 entries, 1..9 names, 1..6 groups), is rendered by an independent emitter (documented keys, decimal/hex operands, varied letter case), by yaml.Marshal and by json.Marshal of the library structs, read back through ucfg/yaml + Unpack exactly as cmd/sandbox does, and must compile to the identical program (or both be rejected); non-trivial = distinct policies round-tripped"
 	ctx.Assumptions = []string{"ucfg/yaml.NewConfig + Unpack into struct{Seccomp Policy} is the documented configuration path (cmd/sandbox parsePolicy)", "JSON text is fed to the same YAML loader (JSON is a YAML subset); ucfg's separate JSON loader is not on the documented path"}
 	return finishOrReplay(ctx, replay)
 }
